@@ -7,6 +7,14 @@
 // server in a later block whose time lies in [now-3s, now+latency]. The signaller's view of the chain is served
 // by the real feeds gRPC query server on ch.Ctx().
 //
+// Submissions may be DELAYED: SubPat entries 3 and 4 keep a batch in flight for that many ticks, also across a block
+// in which the chain recalculates the current feeds (batches with delay 0..2 are included in that block at the
+// latest). Long delays are used only when every cooldown of the case leaves the slack for them (cooldown <=
+// min interval - 16). "Fast update" cases recalculate the feeds every 3..8 blocks and keep re-voting the listed
+// signals with new powers, so that a signal's power/interval/deviation changes while a batch with it is in flight. A
+// batch that was decided before a recalculation removed one of its signals from the list is refused by the chain
+// legitimately (counted as "submission-raced-with-feed-update").
+//
 // Governance may change the feeds module params in the middle of a history (Gov): a real MsgUpdateParams
 // (authority = gov module address) travels through a real proposal (submit tx, yes votes, execution by gov's end
 // blocker once the voting period is over), with price moves / status flips scheduled relative to the step at which
@@ -60,6 +68,8 @@ const (
 	stmtSlotEnd     = 80        //
 	powerStep       = 1_000_000 // feeds PowerStepThreshold used by the generated chains
 	maxDelaySteps   = 2         // a submission lands at most this many polling periods after it was handed off ...
+	longDelaySteps  = 4         // ... or this many for the "delayed" ones (only in cases whose cooldowns leave that slack)
+	longDelaySlack  = 16        // min interval - cooldown needed for them (buffer 3 + delay 4 + block gap 3 + offset 0.9, with room)
 	maxBlockEvery   = 3         // ... plus at most this many seconds until the next block
 	maxOffMs        = 900       // block time is at most this far ahead of the step after which it is produced
 	minOffMs        = -3000     // and at most TimeBuffer behind
@@ -128,7 +138,7 @@ type loopCase struct {
 	Events   []evt       `json:"events"`
 	BlockPat []int       `json:"block_pat"`     // steps between two blocks (cyclic), each 1..3
 	OffPat   []int       `json:"off_pat"`       // block time - step time in ms (cyclic), each in [-3000, 900]
-	SubPat   []int       `json:"sub_pat"`       // per submission (cyclic): 0..2 lands after that many steps; -1 fails at once; -2,-3 lost, released after 1,2 steps
+	SubPat   []int       `json:"sub_pat"`       // per submission (cyclic): 0..2 lands after that many steps; 3,4 delayed that many steps (also across a feeds recalculation); -1 fails at once; -2,-3 lost, released after 1,2 steps
 	Gov      []govChange `json:"gov,omitempty"` // governance changes of the feeds params, one proposal at a time, in order of At
 }
 
@@ -215,6 +225,13 @@ func genLoop(rt *rapid.T) loopCase {
 	c.ABTD = gen.OneOf[int64](rt, "abtd", 10, 30, 60, 60)
 	c.MinDev, c.MaxDev = genDevParams(rt)
 	c.UpdEvery = int64(gen.Range(rt, "upd", 15, 150))
+	fastUpd := gen.Chance(rt, "fastupd", 3, 10)
+	if fastUpd {
+		c.UpdEvery = int64(gen.Range(rt, "updfast", 3, 8)) // the chain recalculates the current feeds every few blocks
+		if c.Cooldown > c.MinI-longDelaySlack {
+			c.Cooldown = c.MinI - longDelaySlack // leave room for delayed submissions
+		}
+	}
 	n := gen.OneOf(rt, "nsig", 1, 2, 3, 3, 4, 4, 5, 6)
 	anyIn := false
 	for i := 0; i < n; i++ {
@@ -232,7 +249,7 @@ func genLoop(rt *rapid.T) loopCase {
 		c.Sigs[0].In = true
 	}
 	c.MaxFeeds = 300
-	if gen.Chance(rt, "fewfeeds", 1, 6) {
+	if !fastUpd && gen.Chance(rt, "fewfeeds", 1, 6) {
 		c.MaxFeeds = uint64(gen.Range(rt, "maxfeeds", 1, n))
 	}
 	ne := rapid.IntRange(12, 60).Draw(rt, "nevents")
@@ -284,6 +301,21 @@ func genLoop(rt *rapid.T) loopCase {
 			c.Events = append(c.Events, e)
 		}
 	}
+	if fastUpd {
+		// the voter keeps re-voting the listed signals with new powers: at the next recalculation their power, interval
+		// and deviation change while they stay listed
+		for st := gen.Range(rt, "rv0", 3, 12); st < c.Steps; st += gen.Range(rt, "rvstep", 4, 14) {
+			e := evt{At: st, Kind: "vote"}
+			for j := 0; j < n; j++ {
+				f := 0
+				if c.Sigs[j].In || gen.Chance(rt, "rvin", 1, 6) {
+					f = gen.Range(rt, "rvfactor", 1, 12)
+				}
+				e.Set = append(e.Set, f)
+			}
+			c.Events = append(c.Events, e)
+		}
+	}
 	sort.SliceStable(c.Events, func(i, j int) bool { return c.Events[i].At < c.Events[j].At })
 	for i, k := 0, rapid.IntRange(1, 6).Draw(rt, "nblockpat"); i < k; i++ {
 		c.BlockPat = append(c.BlockPat, gen.OneOf(rt, "blockevery", 1, 1, 1, 2, 2, 3))
@@ -292,6 +324,10 @@ func genLoop(rt *rapid.T) loopCase {
 		c.OffPat = append(c.OffPat, gen.OneOf(rt, "off", -3000, -3000, -2999, -2000, -1000, -1, 0, 400, 900))
 	}
 	for i, k := 0, rapid.IntRange(1, 8).Draw(rt, "nsubpat"); i < k; i++ {
+		if fastUpd || gen.Chance(rt, "longsub", 1, 4) {
+			c.SubPat = append(c.SubPat, gen.OneOf(rt, "sublong", 0, 0, 0, 1, 2, 3, 3, 3, 4, 4, 4, 4, -1, -2))
+			continue
+		}
 		c.SubPat = append(c.SubPat, gen.OneOf(rt, "sub", 0, 0, 0, 0, 0, 0, 0, 0, 0, 0, 1, 1, 1, 1, 1, 2, 2, 2, -1, -1, -2, -3))
 	}
 	if c.SubPat[0] < 0 {
@@ -313,6 +349,12 @@ func genGov(rt *rapid.T, c *loopCase) {
 	n := len(c.Sigs)
 	cur := c.Cooldown
 	maxCd := c.MinI - 10
+	if c.UpdEvery <= 8 {
+		maxCd = c.MinI - longDelaySlack // fast-update cases keep the slack for delayed submissions
+	}
+	if cur > maxCd {
+		maxCd = cur
+	}
 	at := 0
 	for g, ng := 0, gen.OneOf(rt, "ngov", 1, 1, 1, 2, 2, 3); g < ng; g++ {
 		lo := at + 15
@@ -479,7 +521,7 @@ func (c *loopCase) sanitize() {
 		c.SubPat = []int{0}
 	}
 	for i := range c.SubPat {
-		clampI(&c.SubPat[i], -3, maxDelaySteps)
+		clampI(&c.SubPat[i], -3, longDelaySteps)
 	}
 	if len(c.Gov) > 6 {
 		c.Gov = c.Gov[:6]
@@ -723,6 +765,8 @@ func refDeviationBps(power, minDev, maxDev int64) int64 {
 // ---- run ---------------------------------------------------------------------------------------------------
 
 type flight struct {
+	long         bool // delayed 3..4 ticks; not pulled into a feeds-recalculation block
+	emitFeedSet  int  // number of changes of the current-feeds id set when the daemon decided
 	prices       []feedstypes.SignalPrice
 	emitEpoch    int   // number of param changes the chain had gone through when the daemon decided
 	emitCooldown int64 // CooldownTime the daemon could see when it decided
@@ -904,6 +948,21 @@ func runLoop(c loopCase) *pbt.Verdict {
 	prevCooldown := int64(-1)    // CooldownTime before the latest raise (-1: no raise so far)
 	var nParamChanges, nCooldownUp, nCooldownDown, nRaced, nWaitRaised, nWaitRaisedDev, nEarlierLowered, nGovFollow int64
 	var nOtherParam int64
+	// delayed submissions (3..4 ticks) need the slack: every cooldown of the case <= min interval - longDelaySlack
+	allowLong := c.Cooldown <= c.MinI-longDelaySlack
+	for _, g := range c.Gov {
+		if g.Cooldown > c.MinI-longDelaySlack {
+			allowLong = false
+		}
+	}
+	maxLatency := time.Duration(maxDelaySteps+maxBlockEvery) * time.Second
+	if allowLong {
+		maxLatency = time.Duration(longDelaySteps+maxBlockEvery) * time.Second
+	}
+	type feedView struct{ power, interval, dev int64 }
+	daemonView := map[string]feedView{} // the current feeds as the daemon saw them at its last successful poll
+	feedSetEpoch := 0                   // number of changes of the set of current-feed ids
+	var nLongSubs, nRecalcInFlight, nRecalcSeen, nRacedFeed int64
 	thrSeen := map[int64]bool{} // deviation thresholds (bps) current feeds had during the history
 	var nExactSteps, nExactDue, nExactEmit, nExactSecond int64
 	type exactWait struct {
@@ -1137,6 +1196,22 @@ func runLoop(c loopCase) *pbt.Verdict {
 			break
 		}
 		v.Count("step_"+status, 1)
+		if status != signaller.VerifStepQueryError && status != signaller.VerifStepNotValid && status != signaller.VerifStepUpdateFailed {
+			// this tick the daemon has polled the current feeds: which listed signals have new parameters, and is a
+			// batch with such a signal in flight right now?
+			view := map[string]feedView{}
+			for _, f := range cf.Feeds {
+				fv := feedView{f.Power, f.Interval, devOf[f.SignalID]}
+				view[f.SignalID] = fv
+				if old, ok := daemonView[f.SignalID]; ok && old != fv {
+					nRecalcSeen++
+					if inFlightBefore[f.SignalID] {
+						nRecalcInFlight++
+					}
+				}
+			}
+			daemonView = view
+		}
 		emitted := map[string]feedstypes.SignalPrice{}
 		if h != nil {
 			subIdx++
@@ -1157,6 +1232,15 @@ func runLoop(c loopCase) *pbt.Verdict {
 				}
 			}
 			sort.Slice(f.prices, func(i, j int) bool { return f.prices[i].SignalID < f.prices[j].SignalID })
+			f.emitFeedSet = feedSetEpoch
+			if mode > maxDelaySteps {
+				if allowLong {
+					f.long = true
+					nLongSubs++
+				} else {
+					mode = maxDelaySteps
+				}
+			}
 			switch {
 			case mode == -1:
 				f.lost, f.releaseStep = true, k // already released by the consumer
@@ -1361,9 +1445,9 @@ func runLoop(c loopCase) *pbt.Verdict {
 			break
 		}
 		for _, f := range flights {
-			if !f.lost && (f.landStep <= k || isUpdate) {
+			if !f.lost && (f.landStep <= k || (isUpdate && !f.long)) {
 				// block time within [emit-3s, emit+latency] by construction
-				if bt.Before(f.emitNow.Add(-refTimeBuffer*time.Second)) || bt.After(f.emitNow.Add(time.Duration(maxDelaySteps+maxBlockEvery)*time.Second)) {
+				if bt.Before(f.emitNow.Add(-refTimeBuffer*time.Second)) || bt.After(f.emitNow.Add(maxLatency)) {
 					v.Failf("C20/harness-latency", "block time %v outside the stated window of a submission emitted at %v", bt, f.emitNow)
 				}
 				msg := &feedstypes.MsgSubmitSignalPrices{Validator: valAddr.String(), Timestamp: f.emitNow.Unix(), SignalPrices: f.prices}
@@ -1423,6 +1507,14 @@ func runLoop(c loopCase) *pbt.Verdict {
 					// decided on the params of the daemon's last poll, governance raised the cooldown before it landed:
 					// the daemon could not know. From its next tick on it sees the new params and gets no such excuse.
 					nRaced++
+					for _, p := range f.prices {
+						lastExcuse[p.SignalID] = k
+					}
+				} else if f.emitFeedSet < feedSetEpoch && tr.Codespace == feedstypes.ModuleName &&
+					(tr.Code == feedstypes.ErrSignalIDNotSupported.ABCICode() || tr.Code == feedstypes.ErrSignalPricesTooLarge.ABCICode()) {
+					// decided on the feed list of the daemon's last poll; the chain recalculated the list (a signal of the
+					// batch is gone) before the batch was included: the daemon could not know
+					nRacedFeed++
 					for _, p := range f.prices {
 						lastExcuse[p.SignalID] = k
 					}
@@ -1495,6 +1587,7 @@ func runLoop(c loopCase) *pbt.Verdict {
 			v.Count("feed_updates", 1)
 			if strings.Join(sortedKeys(now2), ",") != strings.Join(sortedKeys(inFeed), ",") {
 				v.Count("feed_list_changed", 1)
+				feedSetEpoch++
 			}
 		}
 		inFeed = now2
@@ -1596,6 +1689,14 @@ func runLoop(c loopCase) *pbt.Verdict {
 	cls(nWaitRaised > 0, "cooldown-raised-with-pending-reason")
 	cls(nEarlierLowered > 0, "cooldown-lowered-and-used")
 	cls(nRaced > 0, "submission-raced-with-param-change")
+	v.Count("subs_delayed_ticks", nLongSubs)
+	v.Count("feed_params_recalculated_seen", nRecalcSeen)
+	v.Count("feed_params_recalculated_while_in_flight", nRecalcInFlight)
+	v.Count("subs_raced_with_feed_update", nRacedFeed)
+	cls(nLongSubs > 0, "submission-delayed-ticks")
+	cls(nRecalcInFlight > 0, "feed-params-recalculated-while-in-flight")
+	cls(nRacedFeed > 0, "submission-raced-with-feed-update")
+	cls(c.UpdEvery <= 8, "fast-feed-updates")
 	nonRound := 0
 	for d := range thrSeen {
 		if d%50 != 0 {
